@@ -830,7 +830,7 @@ func dbgPlausible(p *dbgPlan, suspended []uint64) string {
 		switch k {
 		case "zoo":
 			vars = append(vars, fmt.Sprintf("zl%d", i), fmt.Sprintf("zl%d.0", i), fmt.Sprintf("zl%d.-1", i), fmt.Sprintf("zl%d.-5", i), fmt.Sprintf("zl%d.7", i),
-				fmt.Sprintf("zl%d.1.-4", i), fmt.Sprintf("zl%d.2.a", i), fmt.Sprintf("zl%d.x", i), fmt.Sprintf("zm%d.k.0", i), fmt.Sprintf("zm%d.k.-3", i), fmt.Sprintf("zm%d.1", i), fmt.Sprintf("zinf%d", i), fmt.Sprintf("zinf%d.a", i))
+				fmt.Sprintf("zl%d.1.-4", i), fmt.Sprintf("zl%d.-4.a", i), fmt.Sprintf("zl%d.-6.0", i), fmt.Sprintf("zl%d.1.-3.x", i), fmt.Sprintf("zm%d.k.-2.z", i), fmt.Sprintf("zl%d.2.a", i), fmt.Sprintf("zl%d.x", i), fmt.Sprintf("zm%d.k.0", i), fmt.Sprintf("zm%d.k.-3", i), fmt.Sprintf("zm%d.1", i), fmt.Sprintf("zinf%d", i), fmt.Sprintf("zinf%d.a", i))
 		case "straight":
 			vars = append(vars, fmt.Sprintf("v%d", i), fmt.Sprintf("v%d.0", i))
 		case "chain":
@@ -868,7 +868,7 @@ func dbgPlausible(p *dbgPlan, suspended []uint64) string {
 func dbgGarbage(suspended []uint64) string {
 	words := []string{"breakonstart", "break", "rmbreak", "disablebreak", "cont", "describe", "status", "extract", "inject", "lockstate", "foo", ""}
 	args := []string{"1", "2", "3", "999", "-1", "0", "9223372036854775807", "9223372036854775808", "c15", "c15:1", "c15:2", "nosuch:3", "a:b:c", "x:-1", "c15:",
-		":", "v0", "total", "b", "1+1", "{\"a\":1}", "len([1])", "zl0", "zl0.-5", "zl0.-1", "zl0.9", "zl0.1.-3", "zm0.k.3", "zm0.k.-2", "zm0.x.y", "zl1.2.a", "loc.-3", "loc.1.2", "a.b", "zinf0", "[1,2]", "{1:2}", "resume", "stepin", "stepover", "stepout", "kill", "%$#", "true", "false", "{{", "raise(1)"}
+		":", "v0", "total", "b", "1+1", "{\"a\":1}", "len([1])", "zl0", "zl0.-5", "zl0.-1", "zl0.9", "zl0.1.-3", "zl0.-4.a", "zl0.-5.1", "zl1.1.-3.x", "zm0.k.-2.z", "zm0.k.3", "zm0.k.-2", "zm0.x.y", "zl1.2.a", "loc.-3", "loc.1.2", "a.b", "zinf0", "[1,2]", "{1:2}", "resume", "stepin", "stepover", "stepout", "kill", "%$#", "true", "false", "{{", "raise(1)"}
 	for _, t := range suspended {
 		args = append(args, fmt.Sprint(t), fmt.Sprint(t), fmt.Sprint(t))
 	}
